@@ -342,7 +342,8 @@ def r13_2_generic_kinds(ctx):
     readers = []
     for fi in P.yatiml_functions():
         for n in walk_function(fi.node):
-            if (isinstance(n, ast.Attribute) and n.attr == '__origin__') or (isinstance(n, ast.Call) and call_name(n) == 'get_origin'):
+            if (isinstance(n, ast.Attribute) and n.attr == '__origin__') or (isinstance(n, ast.Call) and call_name(n) == 'get_origin') or (
+                    isinstance(n, ast.Call) and call_name(n) == 'getattr' and len(n.args) >= 2 and const_str(n.args[1]) == '__origin__'):
                 if fi.name not in ('is_generic_sequence', 'is_generic_mapping', 'is_generic_union'):
                     readers.append((fi, n))
             if isinstance(n, ast.Compare) and any(norm(c) in ('List', 'Dict', 'Sequence', 'Mapping', 'MutableSequence', 'MutableMapping',
@@ -365,6 +366,10 @@ def r13_2_generic_kinds(ctx):
                     t_ = f_.alpha.text(x)
                     return '__origin__' in t_ or 'get_origin(' in t_ or (isinstance(x, ast.Name) and any(
                         '__origin__' in norm(v) or 'get_origin(' in norm(v) for v in assigned_from(f_, x.id)))
+                if isinstance(n.ops[0], (ast.Eq, ast.NotEq)) and any(is_origin(x) for x in sides) and any(
+                        isinstance(x, (ast.Set, ast.SetComp)) for x in sides):
+                    # a *set* of origins compared with a set of classes: `{origins} == {list}`
+                    pass
                 if not any(is_origin(x) for x in sides):
                     continue
                 other = sides[1] if is_origin(sides[0]) else sides[0]
